@@ -68,6 +68,22 @@ func c12Check(c MetricCase) (r evid.Result) {
 	}
 	nonCommutative := map[string]bool{"-": true, "/": true, "%": true, "^": true, ">": true, ">=": true, "<": true, "<=": true}
 	r.Class(properOverlap, "proper-overlap")
+	if res, err := ev.Eval(m, c.Params); err == nil {
+		unc, inexact := false, false
+		for k, pts := range res.Unc {
+			unc = unc || len(pts) > 0
+			for _, e := range res.Err[k] {
+				inexact = inexact || e > 0
+			}
+		}
+		for _, pts := range res.Err {
+			for _, e := range pts {
+				inexact = inexact || e > 0
+			}
+		}
+		r.Class(unc, "some-point-undecidable")
+		r.Class(inexact, "inexact-operands")
+	}
 	r.NonTrivial = properOverlap || (litLeft && nonCommutative[m.Op])
 	if v := compareMetric("C12", c, recs, ev, c.Params, ""); v != nil {
 		if v.Sig == "C12/harness-model-error" {
@@ -83,7 +99,11 @@ func c12Gen(t *rapid.T) MetricCase {
 	var c MetricCase
 	d := datagen.GenMetricDataN(t, 30, false, true, false, 2, 6)
 	opts := datagen.RangeOpts{KeepStage: true, NoOffset: true, Wide: true, Funcs: []string{"count_over_time", "bytes_over_time", "sum_over_time", "max_over_time"}}
-	exact := false // comparisons and % amplify a last-bit difference into 0/1: integer-valued sides only
+	// % and ^ amplify a last-bit difference of an operand without bound next to their
+	// discontinuities; they are generated over integer-valued (exactly computed) sides only.
+	// Comparisons and divisions over inexact sides are decided through the model's error bounds
+	// (a comparison of two values closer than their bounds is reported undecidable).
+	exact := false
 	genVector := func(label string) *gen.Metric {
 		v := rapid.SampledFrom([]struct {
 			text string
@@ -126,7 +146,7 @@ func c12Gen(t *rapid.T) MetricCase {
 		m.Op = rapid.SampledFrom(datagen.SetOps).Draw(t, "op")
 	}
 	// ... and so does ^ with a negative base: (-3)^7200 is +Inf but (-3)^7200.000000000001 is NaN.
-	exact = kind == "cmp" || m.Op == "%" || m.Op == "^"
+	exact = m.Op == "%" || m.Op == "^" || (kind == "cmp" && rapid.Bool().Draw(t, "exact-comparison"))
 	shape := rapid.SampledFrom([]string{"vv", "vv", "vs", "sv"}).Draw(t, "shape")
 	if kind == "set" {
 		shape = "vv"
